@@ -240,12 +240,15 @@ type zc33Cfg struct {
 func zc33Configs() []zc33Cfg {
 	alt, none, zst := []string{"", "zstd"}, []string{""}, []string{"zstd"}
 	var out []zc33Cfg
-	positions := venum.QT([]int{0, 6, 15}, []int{0, 4, 6, 7, 8, 15, -1})
+	positions := venum.QT([]int{6, 15}, []int{0, 4, 6, 7, 8, 15, -1})
 	for _, p := range positions {
 		out = append(out, zc33Cfg{pos: p, enc: alt, prefix: ""})
 	}
 	for _, p := range []int{-1} {
-		out = append(out, zc33Cfg{pos: p, enc: none, prefix: "p/"}, zc33Cfg{pos: p, enc: zst, prefix: "p/"})
+		if venum.Thorough() {
+			out = append(out, zc33Cfg{pos: p, enc: none, prefix: "p/"})
+		}
+		out = append(out, zc33Cfg{pos: p, enc: zst, prefix: "p/"})
 	}
 	return out
 }
@@ -511,7 +514,7 @@ func TestVerif_C33_GCS(t *testing.T) {
 	// upload on the unchanged tree, so that is an overlap at each of the first 70 uploads)
 	venum.Explore(t, venum.Cfg{Name: "gcs-overlapped-entropy-read", Shardable: true, CheckDeterminism: true},
 		func(x *venum.X) {
-			overlapBody(x, venum.QT(3, 70), cfgs[2:3])
+			overlapBody(x, venum.QT(3, 70), cfgs[1:2])
 		})
 
 	// Boundary-length prefixes: the configured Prefix is as long as the store's object-name limit
